@@ -128,3 +128,35 @@ def zeros(I, n):
 
 
 zeros.py = lambda n: b'\0' * n
+
+
+@_native
+def crc32_of(I, B, lo, hi, init):
+    """running CRC-32 of B[lo:hi] from the initial value (abstract; binascii.crc32 assumed to compute it)"""
+    from pyvc.calls import crc_fn
+    r = crc_fn(B.arr, to_int(lo), to_int(hi), to_int(init))
+    I.ctx.assume(z3.Implies(to_int(lo) == to_int(hi), r == to_int(init)))      # the checksum of no bytes is the initial value
+    return r
+
+
+def _crc32_py(B, lo, hi, init):
+    import binascii
+    return binascii.crc32(bytes(B[lo:hi]), init)
+
+
+crc32_of.py = _crc32_py
+
+
+@_native
+def view_at(I, d, B, lo):
+    """d is the slice of B that starts at lo (by position, not only by content)"""
+    if isinstance(d, bytes):
+        d = I.models.to_sbytes(I, d)
+        if len(d if isinstance(d, bytes) else b'') == 0 and not hasattr(d, 'arr'):
+            return True
+    if not d.arr.eq(B.arr):
+        return z3.And(to_int(d.n) == 0)       # only the empty value is a slice of another array at any position
+    return z3.Or(to_int(d.n) == 0, to_int(d.off) == to_int(B.off) + to_int(lo))
+
+
+view_at.py = lambda d, B, lo: bytes(d) == bytes(B[lo:lo + len(d)])
